@@ -64,7 +64,7 @@ Definition dad_sub_get (s : dstore) (u : N) (keep_deleted : bool) : option drow 
    is resurrected with the new modes, its private column is NOT written. *)
 Definition dad_sub_create (s : dstore) (u want given priv : N) : dstore :=
   let s1 := match dfind u (d_subs s) with
-            | Some _ => ds_subs (dupd u (fun r => mkDRow u want given (r_priv r) false)) s
+            | Some _ => ds_subs (dupd u (fun r => mkDRow (r_user r) want given (r_priv r) false)) s
             | None => ds_subs (fun l => l ++ [mkDRow u want given priv false]) s
             end in
   if is_owner (N.land given want) then ds_owner u s1 else s1.
@@ -312,12 +312,17 @@ Definition assign_access (c : dcache) (mode : option (option N * option N)) : op
     if negb (a1 =? k_auth c)%N || negb (n1 =? k_anon c)%N then Some (Some (a1, n1)) else Some None
   end.
 
-(* replySetDesc, group topic, request from an attached session *)
-Definition d_set_desc (f : fault) (s : dstore) (c : dcache) (n : nat) (sid u : N) (root : bool)
-           (defacs : option (option N * option N)) (pub tru priv : N) : dhres :=
-  let reply code := mkDH s c n [(sid, DCtrl code)] in
-  if negb (tru =? 0)%N && negb root then reply 403 else
-  let core : option (option (N * N) * option N * option N) :=      (* None = error reply [code] below *)
+(* replySetDesc, group topic, request from an attached session.
+   First part: the checks and the two update maps (core: Access/Public/Trusted of the topic row,
+   sub: Private of the requester's subscription).  inl code = reply and return. *)
+Record sdplan := mkPlan { pl_acc : option (N * N); pl_pub : option N; pl_tru : option N; pl_prch : bool; pl_prv : N }.
+Definition pl_ncore (p : sdplan) : bool :=
+  match pl_acc p, pl_pub p, pl_tru p with None, None, None => false | _, _, _ => true end.
+
+Definition d_set_desc_plan (c : dcache) (u : N) (root : bool)
+           (defacs : option (option N * option N)) (pub tru priv : N) : Z + sdplan :=
+  if negb (tru =? 0)%N && negb root then inl 403 else
+  let core : option (option (N * N) * option N * option N) :=      (* None = assignAccess failed *)
     if N.eqb (k_owner c) u then
       match assign_access c defacs with
       | None => None
@@ -329,24 +334,35 @@ Definition d_set_desc (f : fault) (s : dstore) (c : dcache) (n : nat) (sid u : N
     else Some (None, None, None) in
   let nonowner_denied := negb (N.eqb (k_owner c) u) &&
      (match defacs with Some _ => true | None => false end || negb (pub =? 0)%N || negb (tru =? 0)%N) in
-  if nonowner_denied then reply 403 else
+  if nonowner_denied then inl 403 else
   match core with
-  | None => reply 400
+  | None => inl 400
   | Some (acc, upub, utru) =>
     let '(prv, prch) := merge_val (q_priv (dget_pud c u)) priv in
-    let ncore := match acc, upub, utru with None, None, None => false | _, _, _ => true end in
-    if negb ncore && negb prch then reply 304 else
-    let '(ok1, n1) := if ncore then call f n else (true, n) in             (* store.Topics.Update *)
-    if negb ok1 then mkDH s c n1 [(sid, DCtrl 500)] else
-    let s1 := if ncore then dad_topic_update s acc upub utru else s in
-    let '(ok2, n2) := if prch then call f n1 else (true, n1) in            (* store.Subs.Update *)
-    if negb ok2 then mkDH s1 c n2 [(sid, DCtrl 500)] else
-    let s2 := if prch then dad_subs_update s1 u None (Some prv) else s1 in
-    let c1 := kc_core acc upub utru c in
-    let c2 := if prch then
-                let p := dget_pud c1 u in kc_users (aset u (mkDPud (q_want p) (q_given p) prv)) c1
-              else c1 in
-    mkDH s2 c2 n2 [(sid, DCtrl 200)]
+    let p := mkPlan acc upub utru prch prv in
+    if negb (pl_ncore p) && negb prch then inl 304 else inr p
+  end.
+
+(* Second part: the writes, then the cache *)
+Definition d_set_desc_exec (f : fault) (s : dstore) (c : dcache) (n : nat) (sid u : N) (p : sdplan) : dhres :=
+  let ncore := pl_ncore p in
+  let '(ok1, n1) := if ncore then call f n else (true, n) in             (* store.Topics.Update *)
+  if negb ok1 then mkDH s c n1 [(sid, DCtrl 500)] else
+  let s1 := if ncore then dad_topic_update s (pl_acc p) (pl_pub p) (pl_tru p) else s in
+  let '(ok2, n2) := if pl_prch p then call f n1 else (true, n1) in       (* store.Subs.Update *)
+  if negb ok2 then mkDH s1 c n2 [(sid, DCtrl 500)] else
+  let s2 := if pl_prch p then dad_subs_update s1 u None (Some (pl_prv p)) else s1 in
+  let c1 := kc_core (pl_acc p) (pl_pub p) (pl_tru p) c in
+  let c2 := if pl_prch p then
+              let q := dget_pud c1 u in kc_users (aset u (mkDPud (q_want q) (q_given q) (pl_prv p))) c1
+            else c1 in
+  mkDH s2 c2 n2 [(sid, DCtrl 200)].
+
+Definition d_set_desc (f : fault) (s : dstore) (c : dcache) (n : nat) (sid u : N) (root : bool)
+           (defacs : option (option N * option N)) (pub tru priv : N) : dhres :=
+  match d_set_desc_plan c u root defacs pub tru priv with
+  | inl code => mkDH s c n [(sid, DCtrl code)]
+  | inr p => d_set_desc_exec f s c n sid u p
   end.
 
 (* replySetTags *)
@@ -430,6 +446,10 @@ Definition dstep (f : fault) (x : dstate) (o : dop) : dstate * dout :=
     | None => keep []
     end
   | DRestart => (mkDState s None 0, [])
+  | _ =>
+  (* requests of a session that is not logged in (unknown sid, zero uid) are not modelled *)
+  if (u =? 0)%N then keep [] else
+  match o with
   | DSub _ priv =>
     match dca x with
     | Some c => if dattached c sid then keep [(sid, DCtrl 304)] else fin (d_sub_reply f s c 0 sid u root priv)
@@ -451,10 +471,9 @@ Definition dstep (f : fault) (x : dstate) (o : dop) : dstate * dout :=
       | _ => keep []
       end
     | Some c =>
-      let acting := match alookup sid (k_sess c) with Some a => a | None => u end in
       match o with
       | DLeave _ unsub =>
-        if unsub then fin (d_leave_unsub f s c 0 sid acting)
+        if unsub then fin (d_leave_unsub f s c 0 sid u)
         else fin (mkDH s (kc_sess (aremove sid) c) 0 [(sid, DCtrl 200)])
       | DGetDesc _ => fin (mkDH s c 0 (d_get_desc c sid u))
       | DGetTags _ => fin (mkDH s c 0 (d_get_tags c sid u))
@@ -463,6 +482,7 @@ Definition dstep (f : fault) (x : dstate) (o : dop) : dstate * dout :=
       | _ => keep []
       end
     end
+  end
   end.
 
 (* a crash discards the in-memory state after the faulty request *)
